@@ -164,15 +164,20 @@ ExtractFailed(parent, pseq, r, ex) ==
     LET want == Expected(parent, r)
         got == ex.rec
         rloc == parent.regions[r].loc
+        (* a feature of the sandwich (every base inside the region, an intron leaving it): when written, it has to be of the
+           same type on the same bases; how its parts are joined on the extract is not judged (the intron is not there) *)
+        mayOk(f) == \E m \in want.mayFeats : m.type = f.type /\ Bases(m.loc) = Bases(f.loc)
+        known(f, dna) == OFeat(f, dna) \in (IF dna THEN want.featsDna \cup want.mayFeatsDna ELSE want.feats \cup want.mayFeats)
+                         \/ mayOk(OFeat(f, FALSE))
     IN  FileNumbersFailed(ex.raw)
         \cup (IF ex.seq # ExtractSeq(pseq, rloc) THEN {"sequence_is_the_region_sequence"} ELSE {})
         \cup (IF ~(want.feats \subseteq {OFeat(f, FALSE) : f \in Rng(got.feats)}) THEN {"every_feature_inside_is_present_covering_the_same_bases"} ELSE {})
-        \cup (IF ~({OFeat(f, FALSE) : f \in Rng(got.feats)} \subseteq want.feats \cup want.mayFeats)
+        \cup (IF ~(\A f \in Rng(got.feats) : known(f, FALSE))
                  \/ Len(got.feats) < want.nfeats \/ Len(got.feats) > want.nfeats + want.nmay THEN {"nothing_but_the_features_inside"} ELSE {})
         \cup (IF /\ want.feats \subseteq {OFeat(f, FALSE) : f \in Rng(got.feats)}
-                 /\ {OFeat(f, FALSE) : f \in Rng(got.feats)} \subseteq want.feats \cup want.mayFeats
+                 /\ \A f \in Rng(got.feats) : known(f, FALSE)
                  /\ ~(/\ want.featsDna \subseteq {OFeat(f, TRUE) : f \in Rng(got.feats)}
-                      /\ {OFeat(f, TRUE) : f \in Rng(got.feats)} \subseteq want.featsDna \cup want.mayFeatsDna)
+                      /\ \A f \in Rng(got.feats) : known(f, TRUE))
               THEN {"shifted_features_read_the_same_bases"} ELSE {})
         \cup (IF Len(got.protos) # want.nprotos \/ {OProto(p) : p \in Rng(got.protos)} # want.protos THEN {"protoclusters_and_core_locations_shifted"} ELSE {})
         \cup (IF Len(got.subs) # want.nsubs \/ {OSub(x) : x \in Rng(got.subs)} # want.subs THEN {"subregions_shifted"} ELSE {})
